@@ -117,9 +117,7 @@ def task_sort(t):
             try:
                 m, held, ext = _setup(names, order, U, hm)
                 if (toi + hm[0]) % 2:
-                    a = _autoref.BDD.__new__(_autoref.BDD)
-                    a._bdd = m
-                    a.vars = m.vars
+                    a = S.autoref_around(m)
                     a.reorder(dict(target))
                 else:
                     _bdd.reorder(m, dict(target))
@@ -287,9 +285,7 @@ def task_empty(t):
                 elif how == 'sort':
                     _bdd.reorder(m, dict(order))
                 else:
-                    a = _autoref.BDD.__new__(_autoref.BDD)
-                    a._bdd = m
-                    a.vars = m.vars
+                    a = S.autoref_around(m)
                     a.reorder()
                 _check_after(m, U, held, [U.var('x')] if nvars else [], ext)
                 rep.add('evaluations')
